@@ -19,7 +19,8 @@ var LibModels = []string{
 	"bytes.Buffer / strings.Builder: append-only byte sequence (WriteByte, Write, WriteString, WriteRune, Bytes, String, Len, Reset)",
 	"math.Abs/Min/Max: exact over reals; math.Sqrt: sqrtU(x)>=0 && sqrtU(x)^2==x for x>=0; math.Floor: to_int",
 	"unicode.IsSpace: exact for code points < 256, uninterpreted above",
-	"strings.TrimSpace: result is a sub-slice of the argument (same backing array, offsets within bounds); trimmed prefix/suffix bytes satisfy isTrimByte (uninterpreted superset of ASCII space); result does not start/end with an ASCII space byte",
+	"utf8.RuneStart(b): exact (b is not in 0x80..0xBF)",
+	"strings.TrimSpace: result is a sub-slice of the argument (same backing array, offsets within bounds); trimmed prefix/suffix bytes satisfy isTrimByte (uninterpreted superset of ASCII space); result does not start/end with an ASCII space byte; whole characters are trimmed (for valid UTF-8 input the result starts and ends on character boundaries)",
 	"strings.ToUpper/ToLower: length-preserving for ASCII input; ASCII letters mapped exactly, other ASCII bytes unchanged (non-ASCII: uninterpreted)",
 	"sort.Ints/Strings/Float64s/Slice: result is an unconstrained permutation-abstracted sequence of the same length (abstracted)",
 	"other strings/strconv/unicode/utf8/math/path functions: uninterpreted deterministic functions of their arguments",
@@ -110,6 +111,9 @@ func (x *Exec) libCall(key string, fn *types.Func, call *ast.CallExpr, recvExpr 
 	case "math.Floor":
 		a := ToReal(arg(0))
 		return []Term{T("(to_real (to_int "+a.S+"))", SReal)}, true
+	case "unicode/utf8.RuneStart":
+		b := arg(0)
+		return []Term{Not(And(Cmp(">=", b, IntLit(0x80)), Cmp("<=", b, IntLit(0xBF))))}, true
 	case "unicode.IsSpace":
 		r := arg(0)
 		x.W.DeclareFun("isSpaceHi", []Sort{SInt}, SBool)
@@ -137,6 +141,17 @@ func (x *Exec) libCall(key string, fn *types.Func, call *ast.CallExpr, recvExpr 
 			T("(forall (("+q+" Int)) "+Implies(outside, T("(isTrimByte "+x.W.SeqAt(s, qi).S+")", SBool)).S+")", SBool),
 			Implies(Cmp(">", n, IntLit(0)), And(Not(isAsciiSp(x.W.SeqAt(r, IntLit(0)))), Not(isAsciiSp(x.W.SeqAt(r, Arith("-", n, IntLit(1)))))))))
 		x.W.Facts = append(x.W.Facts, "(forall ((b Int)) (=> (or (= b 9) (= b 10) (= b 11) (= b 12) (= b 13) (= b 32)) (isTrimByte b)))")
+		if sf := x.P.Contracts.Specs["validUTF8"]; sf != nil && len(sf.Params) == 2 {
+			// TrimSpace removes whole characters: for valid UTF-8 input the result starts and ends on character boundaries
+			name := x.defineSpec(sf)
+			stSort := x.W.SeqSort(SInt)
+			x.W.nfresh++
+			qs := fmt.Sprintf("st!q%d", x.W.nfresh)
+			stv := T(qs, stSort)
+			app := "(" + name + " " + s.S + " " + qs + ")"
+			x.W.AddFact(env.pc, T(fmt.Sprintf("(forall ((%s %s)) (! (=> %s (and (= %s 0) (= %s 0))) :pattern (%s)))", qs, stSort, app,
+				x.W.SeqAt(stv, a).S, x.W.SeqAt(stv, Arith("+", a, n)).S, app), SBool))
+		}
 		return []Term{r}, true
 	case "strings.ToUpper", "strings.ToLower":
 		if x.termMode {
